@@ -114,6 +114,66 @@ def parseUnit (sp : Nat → Bool) (lower : Str → Str) (unitMap : Dict) (connec
         | none => none
     else none
 
+/-! ### the whole `NumberWithUnitParser.parse`: unit lookup + the number part (`value.number`, `resolution_str`) -/
+
+/-- `half_result` as the parser sees it: its text and length, and the `resolution_str` the internal number parser gives
+for it (`none` = Python `None`) -/
+structure Half where
+  text : Str
+  len : Nat
+  res : Option Str
+deriving DecidableEq, Repr
+
+inductive ParseOut where
+  | noValue                                                      -- `ret.value` stays `None` (the model drops the result)
+  | unitValue (number : Option Str) (unit : Str) (resolution : Str)  -- `UnitValue(number, unit)`, `ret.resolution_str`
+  | indexError                                                   -- `unit_keys[-1]` on an empty list
+  | typeError                                                    -- `None + str` / `str + None` in the half branch
+deriving DecidableEq, Repr
+
+/-- `str(None)` inside the f-string -/
+def pyNone : Str := [78, 111, 110, 101]
+
+/-- `last_unit[:-1 * half_result.length]` (`[:-0]` is `[:0]`) -/
+def dropHalf (last : Str) (h : Half) : Str :=
+  if isInfix h.text last then (if h.len = 0 then [] else last.take (last.length - h.len)) else last
+
+/-- `NumberWithUnitParser.parse` for an extract result that carries a number (`data` an ExtractResult, or the
+`[number, half]` pair of the Chinese half expansion). `numRes` = `resolution_str` of `internal_number_parser.parse(number)`
+(`none` when the number has no text or the parser gives `None`) — the number parser is the C03/C04 model, a parameter
+here. Same unit lookup as `parseUnit` (proved: `parseFull_unit`). -/
+def parseFull (sp : Nat → Bool) (lower : Str → Str) (unitMap : Dict) (connector : Str)
+    (text : Str) (numStart : Int) (numLen : Nat) (numRes : Option Str) (half : Option Half) : ParseOut :=
+  match (unitKeys sp text numStart numLen).getLast? with
+  | none => .indexError
+  | some last =>
+    let last := match half with
+      | some h => dropHalf last h
+      | none => last
+    let norm := lower last
+    let (last, norm) :=
+      if connector ≠ [] ∧ startsWith norm connector then
+        (strip sp (last.drop connector.length), strip sp (norm.drop connector.length))
+      else (last, norm)
+    let last := deleteBrackets last
+    let norm := deleteBrackets norm
+    if text ≠ [] ∧ unitMap ≠ [] then
+      let uv := match dget unitMap last with
+        | some u => some u
+        | none => dget unitMap norm
+      match uv with
+      | some u =>
+        if u ≠ [] then
+          match half with
+          | none => .unitValue numRes u (strip sp (numRes.getD pyNone ++ [32] ++ u))
+          | some h =>
+            match numRes, h.res with
+            | some r, some hr => .unitValue (some (r ++ hr.drop 1)) u (strip sp (r ++ hr.drop 1 ++ [32] ++ u))
+            | _, _ => .typeError
+        else .noValue
+      | none => .noValue
+    else .noValue
+
 /-- `BaseCurrencyParser.parse` (simple case): the ISO code attached to a unit; a code starting with `_` is a fake
 ISO code and yields a plain UnitValue (no `isoCurrency` key). Result: `none` = no isoCurrency key,
 `some none` = key present with value None, `some (some c)` = the code. -/
